@@ -245,7 +245,10 @@ def mon_c10(run, case, stmts):
             done_at[u["Id"]] = (h["clk"], h["inv"])
     if not done_at:
         return
-    delivered = {(e["upd"]["Id"], e["upd"]["Action"], e["inv"]) for e in b.log}
+    from collections import Counter
+
+    delivered_n = Counter((e["upd"]["Id"], e["upd"]["Action"], e["inv"]) for e in b.log)
+    handed_n: Counter = Counter()
 
     def chain(u):
         out = []
@@ -261,20 +264,41 @@ def mon_c10(run, case, stmts):
         u = h["upd"]
         if not u:
             continue
+        if h.get("raised") == "OrphanedChildException":
+            continue  # rejected before it was enqueued: never reaches the backend
+        key = (u["Id"], u["Action"], h["inv"])
+        handed_n[key] += 1
+        reached = delivered_n[key] >= handed_n[key]
+        if not reached:
+            continue
+        # position of this update in the backend's arrival order (k-th accepted record with this key)
+        arr = [e["n"] for e in b.log if (e["upd"]["Id"], e["upd"]["Action"], e["inv"]) == key]
+        my_n = arr[handed_n[key] - 1] if len(arr) >= handed_n[key] else None
         for a in chain(u):
             if a in done_at and done_at[a][1] == h["inv"] and h["clk"] > done_at[a][0]:
-                if (u["Id"], u["Action"], h["inv"]) in delivered and h["returned"] or (u["Id"], u["Action"], h["inv"]) in delivered:
-                    first_seen = b.ops.get(u["Id"], {}).get("_first_handover_clk")
-                    site = f"{u['Type']}:{u['Action']}"
-                    run.v("C10", "update_recorded_under_completed_context", site,
-                          f"{b.path_of.get(u['Id'], u.get('Name'))}: {u['Action']} handed over (clk {h['clk']}) after ancestor {b.path_of.get(a)} was handed its completion record (clk {done_at[a][0]}) and it reached the backend")
+                # overlapping hand-over calls are ordered by what the backend saw: a violation only if the record
+                # arrived after the ancestor's completion record
+                anc_n = next((e["n"] for e in b.log if e["upd"]["Id"] == a and e["upd"]["Action"] in ("SUCCEED", "FAIL")), None)
+                if anc_n is None or my_n is None or my_n < anc_n:
+                    break
+                site = f"{u['Type']}:{u['Action']}"
+                run.v("C10", "update_recorded_under_completed_context", site,
+                      f"{b.path_of.get(u['Id'], u.get('Name'))}: {u['Action']} handed over (clk {h['clk']}) after ancestor {b.path_of.get(a)} was handed its completion record (clk {done_at[a][0]}) and it reached the backend after that record")
                 break
-    # user functions entered in an orphaned branch for an operation first encountered after the completion
+    # user functions entered in an orphaned branch for an operation first encountered after the completion:
+    # the operation's first hand-over of this invocation came after the ancestor's completion and was let through
+    first_ho: dict = {}
+    for h in run.handovers:
+        u = h["upd"]
+        if u and (u["Id"], h["inv"]) not in first_ho:
+            first_ho[(u["Id"], h["inv"])] = h
     for e in run.entries:
         if e["kind"] not in ("step", "check", "submitter"):
             continue
         oid = b.by_path.get(e["path"])
-        # ancestors by structural path
+        fh = first_ho.get((oid, e["inv"]))
+        if fh is None or fh["clk"] > e["clk"] or fh.get("raised") == "OrphanedChildException":
+            continue
         anc_ids = []
         pp = parent_path(e["path"])
         while pp:
@@ -283,9 +307,9 @@ def mon_c10(run, case, stmts):
                 anc_ids.append(i)
             pp = parent_path(pp)
         for a in anc_ids:
-            if a in done_at and done_at[a][1] == e["inv"] and e["clk"] > done_at[a][0]:
+            if a in done_at and done_at[a][1] == e["inv"] and fh["clk"] > done_at[a][0]:
                 run.v("C10", "orphan_user_function_entered", e["kind"],
-                      f"{e['path']}: user function entered (clk {e['clk']}) after ancestor {b.path_of.get(a)} was handed its completion record (clk {done_at[a][0]})")
+                      f"{e['path']}: operation first handed over at clk {fh['clk']} and its user function entered (clk {e['clk']}) after ancestor {b.path_of.get(a)} was handed its completion record (clk {done_at[a][0]})")
                 break
 
 
